@@ -749,7 +749,6 @@ func (c *Change) abortLanes(lanes []int, abortedLanes map[int]bool, seenTasks ma
 	var hasLive = make(map[int]bool)
 	var hasDead = make(map[int]bool)
 	var laneTasks []*Task
-NextChangeTask:
 	for _, tid := range c.taskIDs {
 		t := c.state.tasks[tid]
 
@@ -761,12 +760,32 @@ NextChangeTask:
 			live = !seenTasks[t.id]
 		}
 
+		inKillList := false
+	CheckKillList:
 		for _, tlane := range t.Lanes() {
 			for _, lane := range lanes {
 				if tlane == lane {
-					laneTasks = append(laneTasks, t)
-					continue NextChangeTask
+					inKillList = true
+					break CheckKillList
 				}
+			}
+		}
+		if inKillList {
+			laneTasks = append(laneTasks, t)
+		}
+
+		for _, tlane := range t.Lanes() {
+			if inKillList {
+				// A task of the lanes being killed has no say about
+				// its other lanes being live, it may be aborted in
+				// a moment. If it is dead already (e.g. it is the
+				// task that failed earlier) those lanes are not
+				// healthy though, whatever the order in which it
+				// joined its lanes.
+				if !live {
+					hasDead[tlane] = true
+				}
+				continue
 			}
 
 			// Track opinion about lanes not in the kill list.
